@@ -122,6 +122,35 @@ pub fn run(tier: &str, seed: u64, dir: &str) {
             }
         }
     }
+    // a re-join whose CFList marks as unused (0) channels the previous session's CFList had defined,
+    // at the end and in the middle of the list: afterwards only the default channels and the new
+    // list's channels are transmitted on
+    for region in REGIONS {
+        if is_fixed(region) {
+            continue;
+        }
+        let (lo, _hi) = band(region);
+        let f = |k: u32| lo + 1_000_000 + 200_000 * k;
+        for (k, second) in [[f(0), f(1), 0, 0, 0], [f(0), 0, f(2), 0, 0], [0, 0, 0, 0, f(4)], [0, 0, 0, 0, 0]].into_iter().enumerate() {
+            let mut h = Hist::new("C09", region, 20, 0, 900 + k as u64, &[], None);
+            h.go_live();
+            for (round, list) in [[f(0), f(1), f(2), f(3), f(4)], second].into_iter().enumerate() {
+                h.ev("otaa");
+                let devaddr = 0x0100_0000 + (rng.next() as u32 & 0xffffff);
+                let root = h.root;
+                let acc = build_join_accept(&root, devaddr, 0, 1, &CfDesc::Dynamic(list));
+                h.rx_bytes(if (k + round) % 2 == 0 { "rx1" } else { "rx2" }, 5, &acc, None);
+                h.devaddr = devaddr;
+                h.last_down = None;
+                h.snap();
+                for _ in 0..(if round == 0 { 3 } else { 10 }) {
+                    h.send(1, false, &[2]).timeout().snap();
+                }
+            }
+            let op = h.done();
+            sink.case(&op, &eval(&op), "cflist-rejoin", true);
+        }
+    }
     // long runs of unanswered join attempts: every JoinRequest of the walk must be on a join channel
     for region in REGIONS {
         for k in 0..(if thorough { 20 } else { if is_fixed(region) { 5 } else { 1 } }) {
